@@ -39,3 +39,21 @@ Definition last_result (ls : list (list Z)) : option (Z * Z) :=
     end
   | None => None
   end.
+
+(* the state a recorded history ends in *)
+Definition final_state (ls : list (list Z)) : option State :=
+  match parse_all ls with Some h => Some (run init_state h) | None => None end.
+(* error codes of the positions that cannot leave / claim in the final state *)
+Definition exit_blocked_codes (ls : list (list Z)) : list Z :=
+  match final_state ls with Some s => map snd (exit_blocked s) | None => [] end.
+Definition claim_blocked_codes (ls : list (list Z)) : list Z :=
+  match final_state ls with Some s => map snd (claim_blocked s) | None => [] end.
+(* error codes of Delegate(1 unit) by [del] over every (validator, asset) pair it fails for *)
+Definition enter_blocked_codes (del : Z) (ls : list (list Z)) : list Z :=
+  match final_state ls with
+  | Some s => filter (fun c => negb (c =? 0))
+                (flat_map (fun kv => match fst kv with
+                                     | [v] => map (fun ka => probe_enter s del v (a_denom (snd ka)) 1) (assets s)
+                                     | _ => [] end) (svals s))
+  | None => []
+  end.
